@@ -784,13 +784,6 @@ where
         }
     };
 
-    if let Err(report) = Validate::validate(&value) {
-        return Err(Error::ValidationError {
-            report,
-            locations: recorder.map,
-        });
-    }
-
     // After finishing first document, peek ahead to detect either another document/content
     // or trailing garbage. If a scan error occurs but we have seen a DocumentEnd ("..."),
     // ignore the trailing garbage. Otherwise, surface the error.
@@ -812,6 +805,16 @@ where
     }
 
     src.finish()?;
+
+    // Validation comes last, as in the string entry points: what is wrong with the stream (a
+    // second document, a syntax error, a reader failure) is reported before what is wrong with
+    // the value.
+    if let Err(report) = Validate::validate(&value) {
+        return Err(Error::ValidationError {
+            report,
+            locations: recorder.map,
+        });
+    }
     Ok(value)
 }
 
@@ -1187,13 +1190,6 @@ where
         }
     };
 
-    if let Err(errors) = ValidatorValidate::validate(&value) {
-        return Err(Error::ValidatorError {
-            errors,
-            locations: recorder.map,
-        });
-    }
-
     // After finishing first document, peek ahead to detect either another document/content
     // or trailing garbage. If a scan error occurs but we have seen a DocumentEnd ("..."),
     // ignore the trailing garbage. Otherwise, surface the error.
@@ -1215,6 +1211,14 @@ where
     }
 
     src.finish()?;
+
+    // Validation comes last, as in the string entry points (see `from_reader_with_options_valid`).
+    if let Err(errors) = ValidatorValidate::validate(&value) {
+        return Err(Error::ValidatorError {
+            errors,
+            locations: recorder.map,
+        });
+    }
     Ok(value)
 }
 
